@@ -79,6 +79,9 @@ def make_run(prog_name, source, naborts):
 
       def handler(k):
         def h():
+          if any(e[0] == 'exec-ret' for e in ctx.events):
+            ctx.events.append(('abort-ret', k))      # the signal arrived after execute() returned: not our business
+            return
           ctx.events.append(('abort-call', k))
           try:
             htf.Test.handle_sig_int(None, None)
@@ -98,6 +101,15 @@ def make_run(prog_name, source, naborts):
           sched.point('sig')
           if source == 'sigint':
             s.interrupt(0, handler(k))
+            # the operator's next Ctrl-C comes after this handler has run
+            spins = 0
+            while ('abort-ret', k) not in ctx.events:
+              spins += 1
+              if (ctx.events and ctx.events[-1][0] == 'exec-done') or spins > 400:
+                return
+              sched.point('sig.wait-for-handler')
+              import time
+              time.sleep(0.001)
           else:
             ctx.events.append(('abort-call', k))
             test.abort_from_sig_int()
@@ -146,6 +158,11 @@ def judge(prog_name, naborts, box, failure):
     return ['execute() raised an unexpected exception']
   er = ev[names.index('exec-ret')]
   test = box.get('test')
+  fin0 = first('plug', lambda e: e[1] == 'teardown')
+  ac0 = first('abort-call')
+  if er[1] == 'KeyboardInterrupt' and box.get('ncb') == 0 and fin0 is not None and ac0 is not None and ac0 > fin0:
+    return ['SIGINT during the finalization section of execute() (after the executor thread ended): '
+            'KeyboardInterrupt skips the output callbacks']
   if er[1] == 'KeyboardInterrupt' and box.get('ncb') == 0 and test is not None and test.uid is not None:
     return ['SIGINT delivered between registration and the try block of execute(): KeyboardInterrupt escapes, '
             'no callbacks, executor and registration leak']
